@@ -59,6 +59,27 @@ class AbstractValue:
     """
 
 
+class LazyIter(AbstractValue):
+    """An iterator built from other (possibly abstract or unbounded) iterables: zip / chain / repeat.
+    Elements are produced on demand, so an abstract sequence decides element by element how long it is."""
+
+    def __init__(self, make, what):
+        self.make = make
+        self.what = what
+        self._it = None
+
+    def __repr__(self):
+        return '<lazy %s>' % self.what
+
+    def abs_iter(self, interp):
+        if self._it is None:
+            self._it = self.make()
+        return self._it
+
+    def abs_truth(self, interp):
+        return True
+
+
 class Unknown(AbstractValue):
     """Top: nothing is known about the value."""
 
@@ -749,6 +770,18 @@ class Interp:
         d = ref.dotted
         if d in self.intrinsics:
             return self.intrinsics[d](self, list(args), kwargs)
+        if d == 'itertools.repeat' and args and not kwargs:
+            x = args[0]
+            if len(args) == 1:
+                return LazyIter(lambda: itertools.repeat(x), 'repeat')
+            if isinstance(args[1], int):
+                return [x] * args[1]
+        if d in ('builtins.zip', 'itertools.chain') and not kwargs and any(is_abstract(a) for a in args):
+            if all(hasattr(a, 'abs_iter') or not is_abstract(a) for a in args):
+                its = list(args)
+                if d == 'builtins.zip':
+                    return LazyIter(lambda: zip(*[iter(self.iterate(a)) for a in its]), 'zip')
+                return LazyIter(lambda: itertools.chain.from_iterable(self.iterate(a) for a in its), 'chain')
         if d == 'builtins.sorted':
             return self.sort_values(list(self.iterate(args[0])), kwargs.get('key'), kwargs.get('reverse', False))
         if d == 'builtins.isinstance':
